@@ -331,6 +331,15 @@ pub fn run_ins(cache: AnyCache, ins: &Ins, out: &mut Vec<String>, masked: bool) 
             let ptr = run_ctx(|c| c.caches.get(1 + *k).copied()).expect("scenario registered no other cache");
             let other = unsafe { &*(ptr as *const assets_manager::AssetCache<SimSource>) }.as_any_cache();
             let _ = other.raw_source().read(id, ext);
+            // assets of the other cache too: an asset key of another cache must not become a dependency here, even
+            // when this cache holds an asset with the same id and type
+            if ext == "a" {
+                let _ = other.load::<LA>(id).map(|h| h.read().0.bytes.len());
+                let _ = other.get_cached::<LAB>(id);
+            } else {
+                let _ = other.load::<LAB>(id).map(|h| h.read().0.bytes.len());
+                let _ = other.get_cached::<LA>(id);
+            }
             out.push("~other".into());
         }
         Ins::Catch(v) => {
